@@ -38,7 +38,7 @@ func genBattle(t *rapid.T, maxW int, bigOffsets bool) battleCase {
 	} else {
 		c.Cfg.R, c.Cfg.W = m, m
 	}
-	c.Cfg.P = rapid.SampledFrom([]int{1, 2, 2, 3, 3, 4, 6, 16}).Draw(t, "P")
+	c.Cfg.P = rapid.SampledFrom([]int{1, 2, 2, 3, 3, 4, 6, 16, 100}).Draw(t, "P")
 	c.Cfg.Mode = rapid.IntRange(0, 2).Draw(t, "mode")
 	if rapid.IntRange(0, 9).Draw(t, "cyk") == 0 {
 		c.Cfg.Cycles = rapid.IntRange(81, 500).Draw(t, "cycles")
@@ -46,6 +46,9 @@ func genBattle(t *rapid.T, maxW int, bigOffsets bool) battleCase {
 		c.Cfg.Cycles = rapid.IntRange(1, 80).Draw(t, "cycles")
 	}
 	maxLen := 6
+	if rapid.IntRange(0, 7).Draw(t, "longw") == 0 {
+		maxLen = 14
+	}
 	if maxLen > m {
 		maxLen = m
 	}
